@@ -441,6 +441,9 @@ impl Prop for C10 {
     fn id(&self) -> &'static str {
         "C10"
     }
+    fn supplement(&self, tier: Tier, seed: u64) -> (Vec<crate::world::Violation>, Value) {
+        super::common::msim_supplement("C10", "cache", tier, seed)
+    }
     fn engine(&self) -> &'static str {
         "asim + tsim (shuttle)"
     }
